@@ -392,6 +392,31 @@ pub fn exec_more(t: &[&str]) -> R {
             claims_dec(esc, t.get(2).ok_or_else(bad)?)
         }
         "claims.enc" => claims_enc(t.get(1).ok_or_else(bad)?),
+        // oracle-only: the `Json<T>` wrapper as payload and as footer against plain serde_json on the same bytes
+        "o.json" => {
+            use paseto_core::encodings::{Footer, Payload};
+            let bytes = crate::util::unhex(t.get(1).ok_or_else(bad)?).ok_or_else(bad)?;
+            let generic: Option<serde_json::Value> = serde_json::from_slice(&bytes).ok();
+            let pay = <paseto_json::Json<serde_json::Value> as Payload>::decode(&bytes).ok().map(|j| j.0);
+            let foot = <paseto_json::Json<serde_json::Value> as Footer>::decode(&bytes).ok().map(|j| j.0);
+            let rc = <RegisteredClaims as Payload>::decode(&bytes).is_ok();
+            let rc_generic = serde_json::from_slice::<RegisteredClaims>(&bytes).is_ok();
+            // encoding direction: the wrapper writes what serde_json writes
+            let enc_same = match &generic {
+                Some(v) => {
+                    let mut a = Vec::new();
+                    let mut b = Vec::new();
+                    let ea = <paseto_json::Json<serde_json::Value> as Payload>::encode(paseto_json::Json(v.clone()), &mut a).is_ok();
+                    let eb = <paseto_json::Json<serde_json::Value> as Footer>::encode(&paseto_json::Json(v.clone()), &mut b).is_ok();
+                    let want = serde_json::to_vec(v).unwrap_or_default();
+                    (ea && eb && a == want && b == want) as u8
+                }
+                None => 1,
+            };
+            Ok(format!("generic={} payload={} footer={} same={} claims={} claims_generic={} enc_same={} empty={}",
+                generic.is_some() as u8, pay.is_some() as u8, foot.is_some() as u8,
+                (pay == generic && (foot == generic || bytes.is_empty())) as u8, rc as u8, rc_generic as u8, enc_same, bytes.is_empty() as u8))
+        }
         _ => crate::exec3::exec_more(t),
     }
 }
